@@ -24,6 +24,11 @@ pub struct HelloSpec {
     pub wrong_ns: bool,
     /// where the session-id goes relative to <capabilities>
     pub sid_first: bool,
+    /// 0 = one binding style throughout; 1 = both a default namespace and a prefix are declared
+    /// for the base namespace and the <capability> elements use the other one than their parent;
+    /// 2 = as 0, plus a foreign-namespace element that is merely *named* capability (and contains
+    /// a base-version URI), which is no capability of the hello
+    pub binding: u8,
 }
 
 impl HelloSpec {
@@ -35,9 +40,20 @@ impl HelloSpec {
             let ns = if self.wrong_ns { "urn:example:not-netconf" } else { BASE_NS };
             (format!("<hello xmlns=\"{ns}\">"), "")
         };
+        let (open, cp) = if self.binding == 1 {
+            // the other binding for the children: both are declared on <hello>
+            let ns = if self.wrong_ns { "urn:example:not-netconf" } else { BASE_NS };
+            if self.prefixed { (format!("<nc:hello xmlns:nc=\"{ns}\" xmlns=\"{ns}\">"), "") } else { (format!("<hello xmlns=\"{ns}\" xmlns:nc=\"{ns}\">"), "nc:") }
+        } else {
+            (open, p)
+        };
         let mut caps = format!("<{p}capabilities>");
         for c in &self.caps {
-            caps.push_str(&format!("<{p}capability>{}</{p}capability>", xmlstrict::escape_text(c)));
+            caps.push_str(&format!("<{cp}capability>{}</{cp}capability>", xmlstrict::escape_text(c)));
+        }
+        if self.binding == 2 {
+            let foreign = if self.prefixed { "<nc:capability xmlns:nc=\"urn:example:vendor:annotations\">urn:ietf:params:netconf:base:1.0</nc:capability>" } else { "<capability xmlns=\"urn:example:vendor:annotations\">urn:ietf:params:netconf:base:1.0</capability>" };
+            caps.push_str(foreign);
         }
         caps.push_str(&format!("</{p}capabilities>"));
         let sids: String = self.session_ids.iter().map(|s| format!("<{p}session-id>{s}</{p}session-id>")).collect();
@@ -87,6 +103,18 @@ const EXTRA: &[&str] = &[
     "urn:ietf:params:netconf:BASE:1.0",
     "urn:ietf:params:netconf:Base:1.1",
     "urn:ietf:params:netconf:capability:Candidate:1.0",
+    // capability URIs with unusual (but harmless) parameter lists
+    "urn:ietf:params:netconf:capability:url:1.0?scheme",
+    "urn:ietf:params:netconf:capability:url:1.0?scheme&foo=bar",
+    "urn:ietf:params:netconf:capability:url:1.0?foo=bar&scheme",
+    "urn:ietf:params:netconf:capability:url:1.0?scheme=http&scheme",
+    "urn:ietf:params:netconf:capability:url:1.0?scheme=",
+    "urn:ietf:params:netconf:capability:url:1.0?schemes=x",
+    "urn:ietf:params:netconf:capability:url:1.0?",
+    "urn:ietf:params:netconf:capability:url:1.0?=",
+    "urn:ietf:params:netconf:capability:url:1.0?scheme=,,",
+    "urn:ietf:params:netconf:capability:with-defaults:1.0?basic-mode=explicit&also-supported=report-all,trim",
+    "urn:ietf:params:netconf:capability:xpath:1.0?",
 ];
 
 /// session-id text: the fixed forms, or a number around the 32- and 64-bit boundaries (a value
@@ -156,7 +184,7 @@ fn gen_spec(r: &mut Prng) -> HelloSpec {
         1 => vec![gen_sid(r), gen_sid(r)],
         _ => vec![gen_sid(r)],
     };
-    HelloSpec { caps, session_ids, prefixed: r.chance(1, 3), wrong_ns: r.chance(1, 12), sid_first: r.chance(1, 4) }
+    HelloSpec { caps, session_ids, prefixed: r.chance(1, 3), wrong_ns: r.chance(1, 12), sid_first: r.chance(1, 4), binding: match r.below(8) { 0 => 1, 1 => 2, _ => 0 } }
 }
 
 /// base versions the client itself advertised, read off the wire
@@ -239,7 +267,17 @@ pub fn run(cfg: &Cfg) -> i32 {
             _ => sid_class_of(&spec.session_ids[0]).to_string(),
         };
         rep.count(&format!("session-id-class:{sid_class}"));
-        if a_ok != expect {
+        // a foreign-namespace child of <capabilities> is not in the hello's schema: refusing such a
+        // hello is as legitimate as ignoring the element; what is ruled out is counting it as a
+        // capability (establishing on its strength, or reporting it)
+        let foreign_child_refused = spec.binding == 2 && expect && !a_ok;
+        if spec.binding == 2 {
+            rep.count(if a_ok { "hello_with_a_foreign_element_named_capability:established" } else { "hello_with_a_foreign_element_named_capability:refused" });
+        }
+        if spec.binding == 1 {
+            rep.count("hello_with_both_bindings_of_the_base_namespace");
+        }
+        if a_ok != expect && !foreign_child_refused {
             let why = if spec.wrong_ns { "wrong-namespace".to_string() } else if sid.is_none() { format!("session-id-{sid_class}") } else if common.is_empty() { "no-common-version".into() } else { format!("valid-hello(session-id {sid_class})") };
             rep.violation(
                 &format!("establish:{}:{why}", if a_ok { "accepted" } else { "refused" }),
@@ -253,7 +291,22 @@ pub fn run(cfg: &Cfg) -> i32 {
             caps.sort();
             caps.dedup();
             let want = format!("{}|{highest}|{}", sid.unwrap(), caps.join(" "));
-            if *info != want {
+            // the :url capability is reported in a canonical spelling of its scheme list: for the
+            // unusual parameter lists (no value, empty value, repeated or foreign parameters) the
+            // text may differ although the capability is the same one; those hellos are here for
+            // establishment, version and session-id, not for the spelling
+            let odd_url = spec.caps.iter().any(|c| c.contains(":capability:url:1.0?") && !c.ends_with("?scheme=http,ftp,file"));
+            let strip_url = |s: &str| s.split(' ').filter(|c| !c.contains(":capability:url:1.0")).collect::<Vec<_>>().join(" ");
+            let same = if odd_url {
+                let (p, w): (Vec<&str>, Vec<&str>) = (info.splitn(3, '|').collect(), want.splitn(3, '|').collect());
+                p.len() == 3 && p[0] == w[0] && p[1] == w[1] && strip_url(p[2]) == strip_url(w[2])
+            } else {
+                *info == want
+            };
+            if odd_url {
+                rep.count("hellos_with_an_unusual_url_capability_parameter_list");
+            }
+            if !same {
                 let parts: Vec<&str> = info.splitn(3, '|').collect();
                 let wparts: Vec<&str> = want.splitn(3, '|').collect();
                 let mut what = if parts[0] != wparts[0] { "session-id-differs" } else if parts[1] != wparts[1] { "version-differs" } else { "capabilities-differ" };
@@ -261,7 +314,8 @@ pub fn run(cfg: &Cfg) -> i32 {
                 let mut esc: Vec<String> = spec.caps.iter().map(|c| xmlstrict::escape_text(c)).collect();
                 esc.sort();
                 esc.dedup();
-                if what == "capabilities-differ" && parts.get(2) == Some(&esc.join(" ").as_str()) {
+                let norm = |s: &str| if odd_url { strip_url(s) } else { s.to_string() };
+                if what == "capabilities-differ" && parts.get(2).map(|p| norm(p)) == Some(norm(&esc.join(" "))) {
                     what = "capability-uri-not-unescaped";
                 }
                 rep.violation(&format!("context:{what}"), &format!("reported {info:?}, hello says {want:?}"), wit(json!({})));
